@@ -160,6 +160,7 @@ class Heap:
         self.f_at = mkfun('at_%d' % k, Node, I, Node)
         self.f_pos = mkfun('pos_%d' % k, Node, Node, I)
         self.f_mem = mkfun('mem_%d' % k, Node, Node, B)
+        self.f_depth = mkfun('depth_%d' % k, Node, I)
         self.f_tag = mkfun('tag_%d' % t, Node, Str)
         self.f_find = mkfun('find_%d_%d' % (k, t), Node, Str, Node)
         self.f_falen = mkfun('falen_%d_%d' % (k, t), Node, Str, I)
@@ -198,6 +199,8 @@ class Heap:
                                                z3.And(0 <= H.pos(p, x), H.pos(p, x) < H.len(p),
                                                       H.at(p, H.pos(p, x)) == x, x != null, p != null, x != p)),
                             patterns=[H.mem(p, x)]))
+        # A-TREE: the element graph is acyclic (rank function)
+        ax.append(z3.ForAll([p, x], z3.Implies(H.mem(p, x), H.f_depth(x) > H.f_depth(p)), patterns=[H.mem(p, x)]))
         # find = first child with the tag
         ax.append(z3.ForAll([p, t], z3.Implies(H.find(p, t) != null,
                                                z3.And(H.mem(p, H.find(p, t)), H.tag(H.find(p, t)) == t)),
